@@ -134,6 +134,11 @@ def declare(spec):
                   "original_service_start_date", "interrupted", "is_blocked", "destination", "node", "original_class",
                   "queue_size_at_arrival", "queue_size_at_departure", "with_server", "date_last_update"]
     SRV_FIELDS = ["cust", "busy", "next_end_service_date", "busy_time", "total_time", "offduty", "shift_end"]
+    # fields of a customer written when a service is started / when an interrupted one is restarted
+    START_FIELDS = ["arrival_date", "service_start_date", "service_time", "service_end_date", "server", "reneging_date",
+                    "class_change_date", "next_class"]
+    RESTART_FIELDS = START_FIELDS + ["interrupted", "is_blocked", "destination"]
+    ATTACH_FIELDS = ["cust", "busy", "next_end_service_date"]
 
     # ---- class change after service (C09) --------------------------------------------------------------
     add(spec, "Node.change_customer_class",
@@ -294,8 +299,8 @@ def declare(spec):
     add(spec, "Node.begin_interrupted_individuals_service",
         types={"srvr": SRV},
         requires=["net_ok(self)", "float_clock(self)", "interrupted_head_ok(self)"],
-        modifies=[f + "@self.interrupted_individuals[0]" for f in IND_FIELDS] +
-                 [f + "@srvr" for f in SRV_FIELDS] +
+        modifies=[f + "@self.interrupted_individuals[0]" for f in RESTART_FIELDS] +
+                 [f + "@srvr" for f in ATTACH_FIELDS] +
                  ["number_in_service@self", "number_interrupted_individuals@self", "$seq@self.interrupted_individuals",
                   "$seq[BlockedQ]", "len_blocked_queue"],
         allocates=True, raises=[("ValueError", "True")],
@@ -327,7 +332,7 @@ def declare(spec):
                   "implies(newly_free_server is not None and newly_free_server in self.servers, not newly_free_server.busy)",
                   "implies(not isinf(self.c) and self.number_interrupted_individuals > 0, interrupted_head_ok(self))",
                   "implies(self.dynamic_classes, forall_in(self.individuals, lambda q: forall_in(q, lambda i: has(i, 'class_change_date'))))"],
-        modifies=[f + AT_SELF for f in IND_FIELDS] + [f + "@newly_free_server" for f in SRV_FIELDS] +
+        modifies=[f + AT_SELF for f in RESTART_FIELDS] + [f + "@newly_free_server" for f in ATTACH_FIELDS] +
                  ["number_in_service@self", "next_class_change_date@self", "next_class_change_ind@self",
                   "number_interrupted_individuals@self", "$seq@self.interrupted_individuals", "$seq[BlockedQ]", "len_blocked_queue"],
         allocates=True, raises=[("ValueError", "True")],
@@ -380,7 +385,7 @@ def declare(spec):
         cases=[
             dict(name="nopreempt", when="self.priority_preempt is False or isinf(self.c)",
                  requires=[("C05:work-conserving-before-the-arrival", "wc_except(self, next_individual)")],
-                 modifies=[f + AT_SELF for f in IND_FIELDS] + [f + "@S(self.servers)" for f in SRV_FIELDS] +
+                 modifies=[f + AT_SELF for f in START_FIELDS] + [f + "@S(self.servers)" for f in ATTACH_FIELDS] +
                           ["number_in_service@self", "next_class_change_date@self", "next_class_change_ind@self"],
                  ensures=[
                      ("C02+C13:arrival-stamped-now", "next_individual.arrival_date == self.now"),
@@ -402,3 +407,44 @@ def declare(spec):
             dict(name="preempt", when="not (self.priority_preempt is False or isinf(self.c))", modifies=["*"], ensures=[]),
         ],
         props=["C02", "C04", "C05", "C08", "C10", "C11", "C13"])
+
+    # ---- arrival of a customer at a node ---------------------------------------------------------------------------
+    ACCEPT_REQ = ["shape(self)", "net_ok(self)", "float_clock(self)", "has_servers(self)", "dyn_ok(self)", "pop_fwd(self)",
+                  "prio_ok(self, next_individual)", "cls_ok(self, next_individual)",
+                  ("C01:customer-is-nowhere", "loc(next_individual) is None"),
+                  "not next_individual.server", "all_waiting_ok(self)",
+                  "implies(self.dynamic_classes, forall_in(self.individuals, lambda q: forall_in(q, lambda i: has(i, 'class_change_date'))))"]
+    add(spec, "Node.accept",
+        types={"next_individual": IND, "completed": "bool"},
+        requires=ACCEPT_REQ,
+        allocates=True, raises=[("ValueError", "True")],
+        at_call={"begin_service_if_possible_accept": [
+            ("C01:appended-once-to-the-line-of-its-priority-class",
+             "S(self.individuals[next_individual.priority_class]) == append1(old(S(self.individuals[next_individual.priority_class])), next_individual)"),
+            ("C01:population-counter-incremented", "self.number_of_individuals == old(self.number_of_individuals) + 1"),
+            ("C03:located-here", "next_individual.node == self.id_number"),
+            ("C07:no-longer-blocked", "not next_individual.is_blocked"),
+            ("C06:queue-size-seen-at-arrival", "next_individual.queue_size_at_arrival == old(self.number_of_individuals)"),
+        ]},
+        expect_calls={"begin_service_if_possible_accept": 1, "change_state_accept": 1},
+        cases=[
+            dict(name="nopreempt", when="self.priority_preempt is False or isinf(self.c)",
+                 requires=[("C05:work-conserving-before-the-arrival", "wc(self)")],
+                 modifies=[f + AT_SELF for f in START_FIELDS] + [f + "@next_individual" for f in IND_FIELDS] +
+                          [f + "@S(self.servers)" for f in ATTACH_FIELDS] +
+                          ["number_in_service@self", "next_class_change_date@self", "next_class_change_ind@self",
+                           "number_of_individuals@self", "$seq@self.individuals[next_individual.priority_class]",
+                           "loc@next_individual", "filed@next_individual", "prev_priority_class@next_individual"] + TRK,
+                 ensures=[
+                     ("C01:now-located-here", "ref_eq(loc(next_individual), self) and filed(next_individual) == next_individual.priority_class"),
+                     ("C01:population-counter-incremented", "self.number_of_individuals == old(self.number_of_individuals) + 1"),
+                     ("C01:appended-once", "S(self.individuals[next_individual.priority_class]) == append1(old(S(self.individuals[next_individual.priority_class])), next_individual)"),
+                     ("C02+C13:arrival-stamped-now", "next_individual.arrival_date == self.now"),
+                     ("C05:work-conserving-after-the-arrival", "wc(self)"),
+                     ("C07:no-longer-blocked", "not next_individual.is_blocked"),
+                     ("C01+C14:filed-in-the-line-that-release-and-renege-will-look-in",
+                      "next_individual.prev_priority_class == next_individual.priority_class"),
+                 ]),
+            dict(name="preempt", when="not (self.priority_preempt is False or isinf(self.c))", modifies=["*"], ensures=[]),
+        ],
+        props=["C01", "C02", "C03", "C05", "C06", "C07", "C13", "C14", "C17"])
